@@ -63,6 +63,11 @@ CLAIMED = {
    text="Lean theorems: over the reals (Mathlib) the p-norm distance of two functions on a common finite support is symmetric, zero iff they agree, and satisfies the triangle inequality for every p >= 1 (Minkowski) and for the maximum; the executable rational shares are invariant under reordering and rescaling. Ballot graph, for every n: the node enumeration is exactly the duplicate-free sequences over 1..n of length 1..n except n-1, the edge list exactly the adjacent node pairs, adjacency is symmetric, a ballot of length n-1 is completed to a node. Correspondence: lp_dist for p in {1,2,3,4,inf} against the exact power sums (rel. 1e-9, exact zero = exact zero); BallotGraph(n) nodes and edges compared exhaustively for n = 2..6 on every run; node weights of random profiles.",
    note="Trusted: Lean kernel + standard axioms; numpy floats in lp_dist (numerical comparison); PARTIAL: the metric theorems are stated for real-valued functions on a common support and the bridge from the rational power sum lpPow (cast to the reals) to lpDist is not a theorem (the correspondence compares lp_dist with lpPow numerically); the recursive build_graph/_relabel is not re-proved: over the property's whole range n = 2..6 it is compared exhaustively with the proved specification; the node-weight total is monitored, not proved.",
    ref="DESIGN.md §4 C19"),
+
+ "C18": dict(
+   text="Lean theorems at table level (any number of rows and columns): one ballot per distinct pattern of the selected columns in column order (patterns pairwise distinct, each the pattern of some row and vice versa), weight = number of rows with the pattern, total weight = number of rows (partition lemma), the documented errors for empty data / blank id / duplicate id, Scottish first-row check. Correspondence: the harness writes real CSV files (delimiters, quoting, names with commas/quotes/spaces, id and weight columns anywhere, any subset/order of rank_cols, repeated and short rows) and real Scottish files, loads them with the implementation and gives the intended table to the model; monitors recompute pattern weights and voter sets; to_csv output is re-read with csv.reader.",
+   note="Trusted: Lean kernel + standard axioms; pandas.read_csv / groupby(dropna=False) / csv module / file system are modelled by contract. PARTIAL: the Scottish parser's positive path (metadata and ballots with multiplicities) and to_csv rows are carried by correspondence + monitors, not by theorems; the summed-weight-column variant of the weight theorem is not stated. Repaired defect F-C18 (fix: commit e8e3349).",
+   ref="DESIGN.md §4 C18"),
 }
 TECH = "Lean 4 kernel-checked theorems over a hand-written executable model + differential correspondence check of the model against /repo/src + independent Python monitors"
 
